@@ -893,3 +893,24 @@ def namesake_plumbing(ctx, prog, path_regex, min_sites, label):
     if n < min_sites:
         raise AnchorError("%s: %d namesake field initialisations (expected >= %d)" % (label, n, min_sites))
     return n
+
+
+def deadline_discipline(ctx, body, wait_rx, clock_rx, key, min_waits=1):
+    """A wait with a deadline inside a loop: the deadline is computed (clock read matching clock_rx) before the loop, and any
+    re-computation inside the loop happens only AFTER the wait of that iteration (in an arm of its result: a retry, an echo), never
+    unconditionally at the top of the loop - otherwise every fragment that wakes the wait up restarts the full timeout."""
+    waits = [c for c in call_sites(body, wait_rx)]
+    n = 0
+    for w in waits:
+        lp = innermost_loop(body, w.idx)
+        if lp is None:
+            continue
+        n += 1
+        clocks = call_sites(body, clock_rx)
+        outside = [c for c in clocks if c.idx not in lp[1] and body.block_dominates(c.idx, lp[0])]
+        inside = [c for c in clocks if c.idx in lp[1]]
+        ctx.check(bool(outside), "%s:initial-deadline" % key, "the deadline is first computed before the wait loop", body.where(w.idx), bad_detail="no deadline is computed before the wait loop of %s" % short(body.path))
+        early = [c for c in inside if body.block_dominates(c.idx, w.idx)]
+        ctx.check(not early, "%s:not-rearmed-per-iteration" % key, "inside the loop the deadline is re-computed only after the wait (%d site(s))" % len(inside), body.where(w.idx), bad_detail="%s re-computes its deadline at %s on every iteration before waiting: any fragment that ends the wait without ending the loop postpones the timeout" % (short(body.path), ", ".join(body.where(c.idx) for c in early)))
+    if n < min_waits:
+        raise AnchorError("%s: %d waits in a loop (expected >= %d)" % (key, n, min_waits))
